@@ -43,7 +43,7 @@ type litCase struct {
 }
 
 type litFail struct {
-	Kind    string `json:"kind"`  // int | fixed | string | character
+	Kind    string `json:"kind"` // int | fixed | string | character
 	Ty      string `json:"ty"`
 	Class   string `json:"class"`
 	Dev     string `json:"dev"`   // accepts-specified-reject | rejects-specified-accept | wrong-value | internal
